@@ -1486,6 +1486,12 @@ def splice_function(ft, directives, security=False):
             if not (1 <= k <= len(cls)):
                 raise Undecided('lost-anchor', 'closure %d not found in %s (has %d)' % (k, ft.name, len(cls)))
             ci = cls[k - 1]
+            for w_ in d.arg.split()[1:]:
+                if w_.startswith('label='):
+                    # `@@closure k [pat] label=<label>` (added for unit `sec_attrs`): the annotation (its
+                    # `ensures`) is an obligation of its own; a diagnostic whose span lies on the source
+                    # line of the closure header is reported under <label> (cf. loop_label)
+                    loop_labels[ft.first_line + src.line_of(src.t(ci).pos) - 1] = ('closure', w_[len('label='):])
             if src.s(ci) == '||':
                 pend = ci
                 orig_params = []
@@ -1579,12 +1585,16 @@ def splice_function(ft, directives, security=False):
                         o2['label'] = ml.group(1)
                     if o2.get('o') == 'src':
                         o2.update(file=ft.rel, line=cur_line)
-                        if cur_line in loop_labels:
+                        if isinstance(loop_labels.get(cur_line), tuple):
+                            o2['label'] = loop_labels[cur_line][1]      # `@@closure k label=..`
+                        elif cur_line in loop_labels:
                             o2['loop_label'] = loop_labels[cur_line]
                     lines.append((ln, o2))
             elif p != '':
                 o3 = {'o': 'src', 'file': ft.rel, 'line': cur_line, 'fn': ft.name}
-                if cur_line in loop_labels:
+                if isinstance(loop_labels.get(cur_line), tuple):
+                    o3['label'] = loop_labels[cur_line][1]              # `@@closure k label=..`
+                elif cur_line in loop_labels:
                     o3['loop_label'] = loop_labels[cur_line]
                 lines.append((p, o3))
         cur_line += 1
